@@ -49,7 +49,13 @@ TGraph ==
                            <<\A i \in 1..Len(x.rnd) : IF outs = {} THEN x.rnd[i] = Invalid ELSE x.rnd[i] \in outs, "graph: DIRECTION_RANDOM returned a region that is not linked">>,
                            <<x.pure[1] = x.pure[2], "graph: the random choice is not a function of the generator state only">> >>, LAMBDA c : ~c[1]) IN
        bad' = AddBad(f)
-TSpec == TInit /\ [][TRow \/ TGraph \/ TCrash]_<<l, bad>>
+\* NT real threads, one LP each, query the same topology at the same time: every thread must see the sequence it sees when it runs alone
+TConc ==
+  /\ l <= Len(TraceLog) /\ Line.e = "Conc"
+  /\ l' = l + 1
+  /\ bad' = AddBad(SelectSeq(<< <<Line.mismatch = 0, "the random neighbour an LP gets depends on what other threads query at the same time (state shared between calls)">> >>,
+                             LAMBDA c : ~c[1]))
+TSpec == TInit /\ [][TRow \/ TGraph \/ TCrash \/ TConc]_<<l, bad>>
 Progress == TLCSet(1, IF l > TLCGet(1) THEN l ELSE TLCGet(1)) /\ (bad # <<>> => TLCSet(2, bad))
 Post == PrintT(<<"RESULT", TLCGet(1) - 1, Len(TraceLog), TLCGet(2)>>)
 =============================================================================
